@@ -27,7 +27,7 @@ ASSUMPTIONS = [
 GATES = {
     "constant_ambiguity_volume": 1, "threshold_1": 1, "best_at_first_or_last_disparity": 1,
     "two_steps_same_method_different_suffix": 1, "max_type_volume": 3, "pipelines_compared_with_and_without": 5,
-    "regularisation_quantile_1": 1, "pixels_judged": 20000,
+    "regularisation_quantile_1": 1, "regularised_interval_bounds_after_ambiguity": 1, "regularisation_kernel_size_1": 1, "pixels_judged": 20000,
 }
 EPS = 4 * 1.2e-7
 NAMES = {
@@ -290,6 +290,18 @@ def _pipe(case, ctx):
         params[k] = p
         sfx_of[k] = ("." + k.split(".")[1]) if "." in k else ""
     same_twice = len(conf_methods) != len(set(conf_methods))
+    # an interval_bounds step placed after an ambiguity step may be regularised with that ambiguity band
+    amb_seen = None
+    for pos, cm in zip(pos_conf, conf_methods):
+        k = keys[pos]
+        if cm == "ambiguity":
+            amb_seen = k
+        elif cm == "interval_bounds" and amb_seen is not None and rng.random() < 0.7:
+            params[k].update({"regularization": True, "ambiguity_indicator": sfx_of[amb_seen].lstrip("."),
+                              "ambiguity_kernel_size": int(rng.choice([1, 3, 5])), "vertical_depth": int(rng.choice([0, 1, 2])),
+                              "ambiguity_threshold": float(rng.choice([0.3, 0.6, 0.9]))})
+            ctx.gate("regularised_interval_bounds_after_ambiguity")
+            ctx.gate("regularisation_kernel_size_1", int(params[k]["ambiguity_kernel_size"] == 1))
     if use_mfi:
         ibk = [keys[p_] for p_, cm in zip(pos_conf, conf_methods) if cm == "interval_bounds"][-1]
         ambk = [keys[p_] for p_, cm in zip(pos_conf, conf_methods) if cm == "ambiguity"][-1]
